@@ -74,24 +74,45 @@ def arms_rule(F, rep):
 def occupancy_shape_ok(po):
     """port_occupancy(start) == start.players.iter().map(|p| PortOccupancy { port: p.port, follower: p.character == ICE_CLIMBERS }).collect()"""
     sname = po["tir"]["params"][0].get("name")
-    tail = L.strip_try(po["tir"]["value"])
+    root = po["tir"]["value"]
+    env = tir.LetEnv(root)
+    tail = L.strip_try(root)
+    pre = []
     while tail.get("k") == "Block":
-        if tail.get("stmts") or tail.get("tail") is None:
+        if tail.get("tail") is None:
             return False
+        pre += tail.get("stmts", [])
         tail = L.strip_try(tail["tail"])
-    if not (tail.get("k") == "MethodCall" and tail["method"] == "collect"):
+
+    def players_source(e):
+        e = env.resolve(e)
+        if e.get("k") == "MethodCall" and e["method"] in ("iter", "into_iter") and not e.get("args"):
+            e = env.resolve(e["recv"])
+        return tir.place(e) == sname + ".players"
+    pid = st = None
+    if tail.get("k") == "MethodCall" and tail["method"] == "collect" and not [s for s in pre if s.get("k") != "Let"]:
+        m = strip(tail["recv"])
+        if m.get("k") == "MethodCall" and m["method"] == "map" and len(m["args"]) == 1 and players_source(m["recv"]):
+            cl = strip(m["args"][0])
+            if cl.get("k") == "Closure" and len(cl["params"]) == 1 and cl["params"][0].get("k") == "Bind":
+                pid = cl["params"][0]["id"]
+                st = L.strip_try(cl["body"])
+    elif tail.get("k") == "Path" and tail.get("res") == "local":
+        # let mut v = Vec::new()/with_capacity(..); for p in players { v.push(PortOccupancy {..}) }; v
+        vid = tail.get("id")
+        loops = [s for s in pre if s.get("k") == "Expr" and strip(s["e"]).get("k") == "For"]
+        others = [s for s in pre if s.get("k") != "Let" and s not in loops]
+        uses = [x for x in tir.walk(root) if x.get("k") == "MethodCall" and strip(x["recv"]).get("id") == vid]
+        if len(loops) == 1 and not others and len(uses) == 1 and uses[0]["method"] == "push":
+            lp = strip(loops[0]["e"])
+            if players_source(lp["iter"]) and lp["pat"].get("k") == "Bind" and any(y is uses[0] for y in tir.walk(lp["body"])):
+                body = L.strip_try(lp["body"])
+                only = body.get("stmts", []) + ([body["tail"]] if body.get("tail") is not None else [])
+                if len(only) == 1 and L.strip_try(only[0].get("e") if only[0].get("k") == "Expr" else only[0]) is uses[0]:
+                    pid = lp["pat"]["id"]
+                    st = L.strip_try(uses[0]["args"][0])
+    if st is None:
         return False
-    m = strip(tail["recv"])
-    if not (m.get("k") == "MethodCall" and m["method"] == "map" and len(m["args"]) == 1):
-        return False
-    it = strip(m["recv"])
-    if not (it.get("k") == "MethodCall" and it["method"] in ("iter", "into_iter") and tir.place(it["recv"]) == sname + ".players"):
-        return False
-    cl = strip(m["args"][0])
-    if cl.get("k") != "Closure" or len(cl["params"]) != 1 or cl["params"][0].get("k") != "Bind":
-        return False
-    pid = cl["params"][0]["id"]
-    st = L.strip_try(cl["body"])
     while st.get("k") == "Block" and not st.get("stmts") and st.get("tail") is not None:
         st = L.strip_try(st["tail"])
     if st.get("k") != "Struct" or not (st.get("path") or "").endswith("PortOccupancy"):
@@ -101,10 +122,17 @@ def occupancy_shape_ok(po):
     def pfield(e, name):
         e = strip(e)
         return e.get("k") == "Field" and e["name"] == name and strip(e["base"]).get("id") == pid
-    fol = f.get("follower", {})
+    fol = env.resolve(f.get("follower", {}))
     ok_f = fol.get("k") == "Binary" and fol.get("op") == "Eq" and (
         (pfield(fol["l"], "character") and (strip(fol["r"]).get("path") or "").endswith("ICE_CLIMBERS")) or
         (pfield(fol["r"], "character") and (strip(fol["l"]).get("path") or "").endswith("ICE_CLIMBERS")))
+    if not ok_f and fol.get("k") == "Match" and pfield(fol["scrut"], "character") and len(fol["arms"]) == 2:
+        # match p.character { ICE_CLIMBERS => true, _ => false }
+        a0, a1 = fol["arms"]
+        c0 = a0["pat"]
+        is_const = (c0.get("k") in ("Lit", "Path") and ((c0.get("path") or (c0.get("e") or {}).get("path") or "").endswith("ICE_CLIMBERS")))
+        t0, t1 = strip(a0["body"]), strip(a1["body"])
+        ok_f = bool(is_const and not a0.get("guard") and a1["pat"].get("k") == "Wild" and t0.get("v") is True and t1.get("v") is False)
     return set(f) == {"port", "follower"} and pfield(f["port"], "port") and ok_f
 
 
